@@ -72,6 +72,7 @@ CONSTANTS FreeBits = %d
 INVARIANT PrefixMonotone
 INVARIANT CutRule
 INVARIANT TailIndependent
+INVARIANT FieldLocal
 CHECK_DEADLOCK FALSE
 """
 
